@@ -452,6 +452,16 @@ impl Module for M {
                     let ww = (w + 2 * o64).max(0) as u32;
                     let hh = (h + 2 * o64).max(0) as u32;
                     ctx.expect(q.size == Size::new(ww, hh), "offset-size", || format!("{}", fmt_rect(&q)));
+                    // the axes are independent (Lean: `offset_moves_sides_x/_y`): an axis whose sides can move by o
+                    // (something is left of it after shrinking) does so even if the other axis collapses
+                    if o64 < 0 && w > 0 && w + 2 * o64 > 0 {
+                        ctx.count("offset:degenerate:x-axis-still-checked");
+                        ctx.expect(q.top_left.x as i64 == r.top_left.x as i64 - o64, "offset-moves-sides", || format!("x axis: {} from {}", fmt_rect(&q), fmt_rect(&r)));
+                    }
+                    if o64 < 0 && h > 0 && h + 2 * o64 > 0 {
+                        ctx.count("offset:degenerate:y-axis-still-checked");
+                        ctx.expect(q.top_left.y as i64 == r.top_left.y as i64 - o64, "offset-moves-sides", || format!("y axis: {} from {}", fmt_rect(&q), fmt_rect(&r)));
+                    }
                 }
                 fmt_rect(&q)
             }
